@@ -47,7 +47,9 @@ package main
 //	f     the document is written to a file and loaded by loader.NewFileLoader (the others use loader.NewRawLoader); both go
 //	      through configure.loadConfigure and the binder's SetConfig
 //	e<n>  the tagged fields live in an anonymous embedded struct of the holder, n = 1 | 2 levels deep (reflect.StructOf)
-//	g<n>  the holder is the Go-declared type number n of vlGoHolders (fields promoted through Go's own embedding)
+//	g<n>  the holder is the Go-declared type number n of vlGoHolders (fields promoted through Go's own embedding); (ninth round)
+//	      numbers 9-16 are themselves USER POST-PROCESSORS (container.ComponentPostProcessor, not LazyInit, not Ordered): created
+//	      while the registered processors are resolved, their own tagged fields are processed like anybody's (label pp-holder)
 //
 //	c<n>  (seventh round) the keys of the YAML document — every level — are written in letter case n of vlRecase (1 Capitalised,
 //	      2 UPPER, 3 aLTERNATING); the configuration token keeps them in lower case, which is what viper makes of them
@@ -100,7 +102,8 @@ package main
 //   two-step histories: the same oracles on the SECOND creation against the CURRENT configuration (cfg overlaid with
 //        set): C17 V = P = X and X = the current document value; C18 the expression is evaluated on the current
 //        values and validation judges the value actually bound.  A field that still shows what the FIRST configuration
-//        gave is reported as repopulate-stale.
+//        gave is reported as repopulate-stale.  (ninth round) R3 histories whose value tag holds the placeholder inside an
+//        expression that is the identity on it (`#{${k}*${ku}}` with ku = 1, `#{'${k}'}`; label expr-identity): same oracle.
 //   kind HS also: setget-sibling-lost — the KNOWN defect KF-C17-9: after Set on one key of a section, a member of a struct / a
 //        key of a map bound by prefix through the section (or a higher ancestor) that NO Set is at, above or below is lost
 //        (zero / missing) although prop / ${} / prefix on the member itself still give the document's value; any other
@@ -134,6 +137,7 @@ import (
 	"github.com/go-kid/ioc/app"
 	"github.com/go-kid/ioc/configure"
 	"github.com/go-kid/ioc/configure/loader"
+	"github.com/go-kid/ioc/container/processors"
 	"github.com/go-kid/ioc/definition"
 	"github.com/go-kid/ioc/syslog"
 	"github.com/go-kid/ioc/util/framework_helper"
@@ -4455,6 +4459,11 @@ func vlValueGen(rng *hx.Rng, n int, tier string, w *hx.Writer) {
 	for i := 0; i < n/25; i++ {
 		vlRunCP(vlGenCP(rng.Fork()), w)
 	}
+	// (ninth round) … and as many two-step histories (kind R3) whose value tag holds its placeholder INSIDE an expression that is the
+	// identity on it (`#{${k}*${ku}}` with ku = 1, `#{'${k}'}`): the second population of the same tag text must show the CURRENT value
+	for i := 0; i < n/25; i++ {
+		vlRunCase(vlGenC17ExprRetry(rng.Fork()), w)
+	}
 }
 
 func init() {
@@ -4500,6 +4509,11 @@ func init() {
 		// (two mix-ins with a same-named field, an embedded field shadowed by a field of the holder): expressions first
 		for i := 0; i < n/12; i++ {
 			vlRunCase(vlGenHiddenCase(rng.Fork()), w)
+		}
+		// (ninth round) … and one more in twelve whose holder is itself a USER POST-PROCESSOR (Go-declared, flag g9-g16; the
+		// configuration is generated): created while the registered processors are resolved, its fields are processed like anybody's
+		for i := 0; i < n/12; i++ {
+			vlRunCase(vlGenPPHolderCase(rng.Fork()), w)
 		}
 	}, Replay: vlValueReplay, Corpus: vlValueExprCorpus})
 }
@@ -4597,6 +4611,7 @@ func vlValueCorpus(w *hx.Writer) {
 		vlRunCase(vlWith(&c2, true, l.t.k == 'L'), w)
 	}
 	vlValueRetryCorpus(w)
+	vlValueExprRetryCorpus(w)
 	vlValueHSCorpus(w)
 	vlValueDocCorpus(w)
 	vlValueHMCorpus(w)
@@ -4854,6 +4869,7 @@ func vlValueExprCorpus(w *hx.Writer) {
 	vlValueEmbeddedCorpus(w)
 	vlValueTimeCorpus(w)
 	vlValueHiddenCorpus(w)
+	vlValuePPCorpus(w)
 }
 
 // ---------------------------------------------------------------- histories with app.Set between two populations (kind HS)
@@ -6248,6 +6264,40 @@ var vlGoHolders = []vlGoHolderKind{
 	{"E", vlTS, "#{${k}+90}-${k},validate=required", func() (reflect.Value, reflect.Value) {
 		h := reflect.ValueOf(&vlGoHolder8{})
 		return h, h.Elem().Field(1)
+	}},
+	// (ninth round) holders 9-16 are themselves USER POST-PROCESSORS (container.ComponentPostProcessor, not LazyInit, no
+	// Ordered marker): see the section "ninth round" at the end of the file
+	{"E", vlTI, "#{${kb}*${kf}},validate=min=10", func() (reflect.Value, reflect.Value) {
+		h := reflect.ValueOf(&vlGoPP1{})
+		return h, h.Elem()
+	}},
+	{"E", vlTS, "#{'${kn}'+'${kz}'},validate=required min=4", func() (reflect.Value, reflect.Value) {
+		h := reflect.ValueOf(&vlGoPP2{})
+		return h, h.Elem()
+	}},
+	{"E", vlTI, "${k},validate=min=1 max=100", func() (reflect.Value, reflect.Value) {
+		h := reflect.ValueOf(&vlGoPP3{})
+		return h, h.Elem()
+	}},
+	{"E", vlTS, "${k:none},validate=alpha ne=blue", func() (reflect.Value, reflect.Value) {
+		h := reflect.ValueOf(&vlGoPP4{})
+		return h, h.Elem()
+	}},
+	{"Q", &vlFty{k: 'T', fields: []vlFfield{{"port", vlTI, "min=1,max=65535"}, {"name", vlTS, "required"}}}, "k,validate", func() (reflect.Value, reflect.Value) {
+		h := reflect.ValueOf(&vlGoPP5{})
+		return h, h.Elem()
+	}},
+	{"E", vlTD, "#{${k}/4},validate=lte=2.5", func() (reflect.Value, reflect.Value) {
+		h := reflect.ValueOf(&vlGoPP6{})
+		return h, h.Elem()
+	}},
+	{"E", vlTB, "#{${ka} > ${kb} && ${kt}}", func() (reflect.Value, reflect.Value) {
+		h := reflect.ValueOf(&vlGoPP7{})
+		return h, h.Elem()
+	}},
+	{"E", vlTI, "#{${k}*2},validate=max=100", func() (reflect.Value, reflect.Value) {
+		h := reflect.ValueOf(&vlGoPP8{})
+		return h, h.Elem().Field(0)
 	}},
 }
 
@@ -8612,4 +8662,276 @@ func vlGenCP(r *hx.Rng) *vlCpCase {
 	c := vlCpCaseOf(holder, cfg, r.P(1, 4), states...)
 	c.labels = []string{"cprops-gen"}
 	return c
+}
+
+// ---------------------------------------------------------------- ninth round: the holder is itself a user post-processor
+//
+// A component that implements container.ComponentPostProcessor (by embedding processors.DefaultComponentPostProcessor or with
+// methods of its own), is not LazyInit and carries no Ordered / PriorityOrdered marker is created by
+// PostProcessorRegistrationDelegate.InvokeBeanFactoryPostProcessors, BEFORE Refresh creates the ordinary components, inside the
+// loop that resolves the registered processors.  Its own `value` / `prefix` fields are configuration properties like anybody's:
+// the expression must be evaluated after the placeholders inside it were substituted, the field receives the result, and a
+// validate argument makes start-up fail exactly when the bound value violates it (C18 does not except post-processors).
+// reflect.StructOf cannot give a type methods, so these holders are Go-declared (flag g<n>, numbers 9-16 of vlGoHolders: type and
+// tag fixed by the table, the CONFIGURATION is generated); they are judged by the oracles of every other E / Q case
+// (expr-result / validate-iff / bind-direct) and the model treats them like any holder (the flag is ignored).
+
+// vlGoPP1: the quota processor of the demonstration (expression over two placeholders, constraint on the result).
+type vlGoPP1 struct {
+	H0 int `value:"#{${kb}*${kf}},validate=min=10"`
+	processors.DefaultComponentPostProcessor
+}
+
+// vlGoPP2: methods of its own.
+type vlGoPP2 struct {
+	H0    string `value:"#{'${kn}'+'${kz}'},validate=required min=4"`
+	calls int
+}
+
+func (p *vlGoPP2) PostProcessBeforeInitialization(component any, componentName string) (any, error) {
+	p.calls++
+	return component, nil
+}
+
+func (p *vlGoPP2) PostProcessAfterInitialization(component any, componentName string) (any, error) {
+	return component, nil
+}
+
+// vlGoPP3: no expression: binding and validation alone.
+type vlGoPP3 struct {
+	H0 int `value:"${k},validate=min=1 max=100"`
+	processors.DefaultComponentPostProcessor
+	Seen []string
+}
+
+// vlGoPP4: a declared default.
+type vlGoPP4 struct {
+	H0 string `value:"${k:none},validate=alpha ne=blue"`
+	processors.DefaultComponentPostProcessor
+}
+
+// vlGoPP5: a section bound by prefix and validated as a struct.
+type vlGoPP5 struct {
+	H0 vlGoSect `prefix:"k,validate"`
+	processors.DefaultComponentPostProcessor
+}
+
+type vlGoPP6 struct {
+	H0   float64 `value:"#{${k}/4},validate=lte=2.5"`
+	Note string
+}
+
+func (p *vlGoPP6) PostProcessBeforeInitialization(component any, componentName string) (any, error) {
+	return component, nil
+}
+
+func (p *vlGoPP6) PostProcessAfterInitialization(component any, componentName string) (any, error) {
+	return component, nil
+}
+
+// vlGoPP7: no constraint: the expression's result alone.
+type vlGoPP7 struct {
+	H0 bool `value:"#{${ka} > ${kb} && ${kt}}"`
+	processors.DefaultComponentPostProcessor
+}
+
+// vlGoPP8: the tagged field comes from an embedded mix-in (vlGoEmbC of holder 3).
+type vlGoPP8 struct {
+	vlGoEmbC
+	processors.DefaultComponentPostProcessor
+	Own string
+}
+
+const vlGoPPFirst, vlGoPPLast = 9, 16
+
+// vlGenPPConfig: a configuration for the post-processor holder number n (1-based index of vlGoHolders): values on both sides
+// of the constraint's boundary; now and then an operand is not configured at all.
+func vlGenPPConfig(r *hx.Rng, n int) map[string]*vlCval {
+	kv := map[string]*vlCval{"kz9": vlCStr("zz")}
+	put := func(k string, v *vlCval) {
+		if !r.P(1, 14) {
+			kv[k] = v
+		}
+	}
+	switch n {
+	case 9:
+		put("kb", vlCInt(int64(r.Intn(8))))
+		put("kf", vlCInt(int64(r.Intn(7))))
+	case 10:
+		pick := func(short string) *vlCval {
+			switch r.Intn(4) {
+			case 0:
+				return vlCStr("")
+			case 1:
+				return vlCStr(short)
+			}
+			return vlCStr(vlGenPlainWord(r))
+		}
+		kv["kn"], kv["kz"] = pick("a"), pick("bc")
+	case 11:
+		put("k", vlCInt([]int64{0, 1, 5, 50, 100, 101, 500, -3}[r.Intn(8)]))
+	case 12:
+		put("k", vlCStr([]string{"red", "green", "blue", "none", "Blue", "amber7"}[r.Intn(6)]))
+	case 13:
+		sec := map[string]*vlCval{}
+		if !r.P(1, 6) {
+			sec["port"] = vlCInt([]int64{0, 1, 80, 5432, 65535, 65536, 70000}[r.Intn(7)])
+		}
+		if !r.P(1, 4) {
+			sec["name"] = vlCStr(vlGenPlainWord(r))
+		}
+		put("k", vlCMap(sec))
+	case 14:
+		put("k", vlCInt(int64(r.Intn(21))))
+	case 15:
+		put("ka", vlCInt(int64(r.Intn(6))))
+		put("kb", vlCInt(int64(r.Intn(6))))
+		put("kt", vlCBool(!r.P(1, 3)))
+	default:
+		put("k", vlCInt([]int64{0, 7, 21, 49, 50, 51, 70, 400}[r.Intn(8)]))
+	}
+	return kv
+}
+
+// vlGenPPHolderCase: a generated configuration on one of the post-processor holders.
+func vlGenPPHolderCase(r *hx.Rng) *vlVcase {
+	n := vlGoPPFirst + r.Intn(vlGoPPLast-vlGoPPFirst+1)
+	c := vlGoCase(n, vlGenPPConfig(r, n))
+	c.labels = []string{"pp-holder", fmt.Sprintf("pp-holder%d", n)}
+	return c
+}
+
+// vlValuePPCorpus: the demonstration's two starts and one satisfied / one violated configuration per holder.
+func vlValuePPCorpus(w *hx.Writer) {
+	mk := func(n int, cfg map[string]*vlCval) {
+		c := vlGoCase(n, cfg)
+		c.labels = []string{"corpus", "pp-holder"}
+		vlRunCase(c, w)
+	}
+	mk(9, map[string]*vlCval{"kb": vlCInt(4), "kf": vlCInt(5)})
+	mk(9, map[string]*vlCval{"kb": vlCInt(2), "kf": vlCInt(3)})
+	mk(10, map[string]*vlCval{"kn": vlCStr("gold"), "kz": vlCStr("eu")})
+	mk(11, map[string]*vlCval{"k": vlCInt(5)})
+	mk(11, map[string]*vlCval{"k": vlCInt(500)})
+	mk(12, map[string]*vlCval{"k": vlCStr("green")})
+	mk(12, map[string]*vlCval{"k": vlCStr("blue")})
+	mk(12, map[string]*vlCval{"kz9": vlCStr("zz")})
+	mk(13, map[string]*vlCval{"k": vlCMap(map[string]*vlCval{"port": vlCInt(5432), "name": vlCStr("db")})})
+	mk(13, map[string]*vlCval{"k": vlCMap(map[string]*vlCval{"port": vlCInt(70000), "name": vlCStr("db")})})
+	mk(14, map[string]*vlCval{"k": vlCInt(9)})
+	mk(14, map[string]*vlCval{"k": vlCInt(12)})
+	mk(15, map[string]*vlCval{"ka": vlCInt(3), "kb": vlCInt(2), "kt": vlCBool(true)})
+	mk(16, map[string]*vlCval{"k": vlCInt(21)})
+	mk(16, map[string]*vlCval{"k": vlCInt(70)})
+}
+
+// ---------------------------------------------------------------- ninth round: a placeholder INSIDE an expression, populated twice (kind R3)
+//
+// holder struct{ V T `value:"#{…${k}…}"`; P T `prop:"k"`; X T `prefix:"k"` } where the expression is the IDENTITY on what the
+// placeholder delivers (`#{${k}}`, `#{${k}+0}`, `#{${k}*${ku}}` with ku = 1, `#{'${k}'}` for a plain word, `#{${k} && true}`):
+// the key bound through the value placeholder gives the same result as binding it by prefix (C17) — the expression adds nothing —,
+// also on the SECOND population of the same tag text after app.Set(k, v2): the text that is evaluated is the tag after
+// substitution under the CURRENT configuration, not the tag as written.  Values: integers |i| < 2^31, booleans, plain words
+// (letters and digits starting with a letter: outside every lossy class of the value path and of the expression's own
+// formatting).  Oracles of every R3 history: V = P = X = the current document value (repopulate-stale when V still shows the
+// first configuration's value).
+
+// vlIdentityExpr: an expression tag over ${key} whose result is the placeholder's value; more = further keys it needs.
+func vlIdentityExpr(r *hx.Rng, key string, kind byte) (tree []vlTnode, more map[string]*vlCval) {
+	ph := vlTPH(key)
+	switch kind {
+	case 'i':
+		switch r.Intn(6) {
+		case 0:
+			return []vlTnode{vlTExpr(ph, vlTLit("+0"))}, nil
+		case 1:
+			return []vlTnode{vlTExpr(ph, vlTLit("*"), vlTPH("ku"))}, map[string]*vlCval{"ku": vlCInt(1)}
+		case 2:
+			return []vlTnode{vlTExpr(vlTLit("("), ph, vlTLit(")"))}, nil
+		case 3:
+			return []vlTnode{vlTExpr(ph, vlTLit(" - "), vlTPHD("koff", "0"))}, nil
+		}
+	case 'b':
+		if r.Bool() {
+			return []vlTnode{vlTExpr(ph, vlTLit(" && true"))}, nil
+		}
+	case 's':
+		if r.Bool() {
+			return []vlTnode{vlTExpr(vlTLit("'"), ph, vlTLit("' + ''"))}, nil
+		}
+		return []vlTnode{vlTExpr(vlTLit("'"), ph, vlTLit("'"))}, nil
+	}
+	return []vlTnode{vlTExpr(ph)}, nil
+}
+
+// vlGenC17ExprRetry: see above.
+func vlGenC17ExprRetry(r *hx.Rng) *vlVcase {
+	var t *vlFty
+	var v1, v2 *vlCval
+	kind := byte('i')
+	switch r.Intn(8) {
+	case 0, 1, 2:
+		t = []*vlFty{vlTI, vlTJ, vlTPI, vlTA, vlTD, vlTS}[r.Intn(6)]
+		a, b := int64(r.Intn(200)), int64(r.Intn(100000))
+		if r.P(1, 4) {
+			a = -a - 1
+		}
+		if a == b {
+			b++
+		}
+		v1, v2 = vlCInt(a), vlCInt(b)
+	case 3, 4:
+		t = vlTI
+		if r.Bool() {
+			t = vlTJ
+		}
+		a := int64(1 + r.Intn(40))
+		v1, v2 = vlCInt(a), vlCInt(a*int64(2+r.Intn(5))) // cluster sizes: the second a multiple of the first
+	case 5:
+		kind, t = 'b', vlTB
+		b := r.Bool()
+		v1, v2 = vlCBool(b), vlCBool(!b)
+	default:
+		kind, t = 's', vlTS
+		if r.P(1, 4) {
+			t = vlTPS
+		}
+		w1, w2 := "g"+vlGenPlainWord(r), "h"+vlGenPlainWord(r)
+		v1, v2 = vlCStr(w1), vlCStr(w2)
+	}
+	key := vlGenKey(r)
+	tree, more := vlIdentityExpr(r, key, kind)
+	kv := map[string]*vlCval{"kz": vlCStr("zz"), key: v1}
+	for k, v := range more {
+		kv[k] = v
+	}
+	set := map[string]*vlCval{key: v2}
+	c := &vlVcase{kind: "R3", t: t, subject: v2, tags: [][]vlTnode{tree, {vlTLit(key)}, {vlTLit(key)}}}
+	c.gate = vlGenGate(r, false)
+	if c.gate == "a0" || c.gate == "a1" {
+		set[vlGateKey] = vlCInt(1)
+	}
+	c.cfg, c.set = vlCMap(kv), vlCMap(set)
+	c.labels = []string{"retry", "expr-identity", "type-" + string(t.k), "gate-" + c.gate}
+	return c
+}
+
+// vlValueExprRetryCorpus: the cluster of the demonstration — `#{${size}*${unit}}` with unit 1 next to the size bound by the
+// shorthand and by prefix, the size changed from 2 to 5 between the two populations; a pool name inside quotes.
+func vlValueExprRetryCorpus(w *hx.Writer) {
+	for _, gate := range []string{"a0", "a1", "w"} {
+		set := map[string]*vlCval{"size": vlCInt(5)}
+		setN := map[string]*vlCval{"name": vlCStr("green")}
+		if gate != "w" {
+			set[vlGateKey], setN[vlGateKey] = vlCInt(1), vlCInt(1)
+		}
+		vlRunCase(&vlVcase{kind: "R3", t: vlTI, gate: gate, subject: vlCInt(5),
+			cfg: vlCMap(map[string]*vlCval{"size": vlCInt(2), "unit": vlCInt(1)}), set: vlCMap(set),
+			tags:   [][]vlTnode{{vlTExpr(vlTPH("size"), vlTLit("*"), vlTPH("unit"))}, {vlTLit("size")}, {vlTLit("size")}},
+			labels: []string{"corpus", "retry", "expr-identity", "gate-" + gate}}, w)
+		vlRunCase(&vlVcase{kind: "R3", t: vlTS, gate: gate, subject: vlCStr("green"),
+			cfg: vlCMap(map[string]*vlCval{"name": vlCStr("blue")}), set: vlCMap(setN),
+			tags:   [][]vlTnode{{vlTExpr(vlTLit("'"), vlTPH("name"), vlTLit("'"))}, {vlTLit("name")}, {vlTLit("name")}},
+			labels: []string{"corpus", "retry", "expr-identity", "gate-" + gate}}, w)
+	}
 }
